@@ -146,3 +146,41 @@ def canonical_fallback(P: Project, modname: str) -> Project:
     for have, want in todo.items():
         src = re.sub(rf"(?<![A-Za-z0-9_]){re.escape(have)}(?![A-Za-z0-9_])", want, src)
     return P.variant({m.rel: src})
+
+
+# --------------------------------------------------------------------------- legacy SSE transport roles
+def sse_task_entries(P: Project, ci: ClassInfo):
+    """(connection-task entry, sender-task entry): the self-methods `__aenter__` starts as tasks; the sender is the one
+    that iterates the outgoing stream."""
+    meths = P.methods(ci)
+    ae = meths.get("__aenter__")
+    if ae is None:
+        raise AnalysisError(f"anchor vanished: {ci.name}.__aenter__")
+    out_recv = "self." + stream_roles(P, ci)["outgoing_recv"]
+    conn = sender = None
+    for c in walk_local(ae.node):
+        if isinstance(c, ast.Call) and call_name(c).split(".")[-1] in ("create_task", "ensure_future", "start_soon") and c.args:
+            a0 = c.args[0]
+            nm = call_name(a0) if isinstance(a0, ast.Call) else ast.unparse(a0)
+            tgt = meths.get(nm[5:]) if nm.startswith("self.") else None
+            if tgt is None:
+                continue
+            if any(isinstance(n, (ast.AsyncFor, ast.For)) and out_recv in ast.unparse(n.iter) for n in walk_local(tgt.node)):
+                sender = tgt
+            else:
+                conn = tgt
+    return conn, sender
+
+
+def self_closure(P: Project, ci: ClassInfo, root) -> Dict[str, object]:
+    """Methods of `ci` reachable from `root` through direct `self.m(...)` calls (root included)."""
+    meths = P.methods(ci)
+    seen = {root.name: root}
+    work = [root]
+    while work:
+        g = work.pop()
+        for c in walk_local(g.node):
+            if isinstance(c, ast.Call) and call_name(c).startswith("self.") and call_name(c)[5:] in meths and call_name(c)[5:] not in seen:
+                seen[call_name(c)[5:]] = meths[call_name(c)[5:]]
+                work.append(meths[call_name(c)[5:]])
+    return seen
